@@ -155,6 +155,7 @@ func execCase(bin string, c *cf.Case, verbose bool) *outcome {
 			var res cf.Result
 			if jerr := json.Unmarshal(line, &res); jerr == nil {
 				o.res = &res
+				o.infra = "" // (a first attempt that ran into the limit on a stalled machine is forgotten)
 				return o
 			}
 			o.infra = "unparsable worker output: " + string(line[:min(len(line), 200)])
